@@ -86,7 +86,7 @@ prop(
         "TensorBase::from_slice_with_strides / from_data_with_strides / from_storage_and_layout",
         "Layout::min_data_len, NdLayout::from_shape / contiguous_strides, DynLayout::from_shape, NdLayout::offset, DynLayout::offset",
         "Index / IndexMut / get / get_mut (bounds check + Storage::get_unchecked*)",
-        "TensorBase::try_slice / try_slice_dyn / transposed / split_at_mut / index_axis / try_broadcast",
+        "TensorBase::try_slice / transposed / split_at_mut / index_axis / try_broadcast, has_capacity / expanded_layout",
         "overlap::may_have_internal_overlap (through the DisallowOverlap constructors)",
     ],
     bounds=("try_from_data: shape fully symbolic 64-bit for ranks 1-2 (rank 3 with one concrete dim, thorough), storage of "
@@ -138,7 +138,7 @@ prop(
     "C38",
     title="The ONNX protobuf decoder terminates and never panics",
     unwinding_is_violation=True,
-    groups=[dict(crate="rten-onnx", prefix="c38", jobs=8, timeout_quick=900, timeout_thorough=7200, replay_watchdog_s=20)],
+    groups=[dict(crate="rten-onnx", prefix="c38", jobs=8, timeout_quick=900, timeout_thorough=7200, replay_watchdog_s=20, mem_gb_thorough=36)],
     functions=[
         "protobuf::varint::read_varint (over Cursor<&[u8]> and over a one-byte-at-a-time BufRead)",
         "protobuf::value::ValueReader::{new, from_buf, skip, read_bytes, position}",
@@ -326,8 +326,9 @@ prop(
     functions=["drawing::clamp_to_bounds", "drawing::BreshamPoints::{new, next}", "drawing::draw_line (width 1)",
                "drawing::fill_rect", "drawing::stroke_rect (thorough)"],
     bounds=("images 1x1, 2x3, 4x4 (0x0, 5x3 thorough) zero-filled u8; line endpoints symbolic over all of i32 x i32; "
-            "Bresenham lines with coordinates in [-3,3]; fill_rect/stroke_rect rectangles symbolic inside a 3x3 (4x4 "
-            "thorough) image, border width fitting the rectangle; unwind 4-18"),
+            "Bresenham lines with coordinates in [-3,3]; fill_rect rectangles symbolic inside a 3x3 (4x4 thorough) image; "
+            "stroke_rect: 3x4 image with a symbolic top-left corner (quick), every in-image rectangle of a 3x3 image with "
+            "width 1 (thorough; the 4x4 family exceeded the memory limit); unwind 4-18"),
     outside=("find_contours, wide lines and polygon filling (float geometry), rectangles partly outside the image "
              "(fill_rect does no clipping: bounds-checked indexing panics, nothing outside is modified)"),
     assumptions=["stroke_rect border width <= half the rectangle (its documented bounding-box behaviour needs it)"],
